@@ -392,4 +392,45 @@ theorem dumps_mem_fz (v : Json) (hv : v.topOk = true) : dumps v ∈ floatZeroLit
   | arr xs => simp [dumps, floatZeroLits, Json.isFloatZero]
   | obj kvs => simp [dumps, floatZeroLits, Json.isFloatZero]
 
+/-! ### navigation and slice arithmetic helpers -/
+
+theorem listGet_nonneg (xs : List α) (i : Int) (hi : 0 ≤ i) : listGet xs i = xs[i.toNat]? := by
+  have h0 : ¬ i < 0 := by omega
+  by_cases hlt : i < (xs.length : Int)
+  · have hc : ¬ (i < 0 ∨ i ≥ (xs.length : Int)) := by omega
+    simp [listGet, h0, hc]
+    omega
+  · have hc : (i < 0 ∨ i ≥ (xs.length : Int)) := by omega
+    have hn : xs[i.toNat]? = none := List.getElem?_eq_none (by omega)
+    simp [listGet, h0, hc, hn]
+
+theorem getItem_ok_container (v : Json) (k : Key) (w : Json) (h : getItem v k = .ok w) : v.isContainer = true := by
+  cases v <;> cases k <;> simp [getItem] at h <;> rfl
+
+/-- on SQLite (`from_one = False`) a negative index is sent as `len + index`, a non-negative one unchanged -/
+theorem index_sqlite (p : Bool) (v len : Int) : indexConst false p v len = if v ≥ 0 then v else len + v := by
+  simp [indexConst]; split <;> omega
+
+theorem adj_sqlite (p : Bool) (n v : Int) (hn : 0 ≤ n) (h : -n ≤ v) : adjIdx n (indexConst false p v n) = adjIdx n v := by
+  rw [index_sqlite]; unfold adjIdx; split <;> split <;> split <;> (try split) <;> omega
+
+theorem adj_clamp (p : Bool) (n v : Int) (hn : 0 ≤ n) : adjIdx n (max (indexConst false p v n) 0) = adjIdx n v := by
+  rw [index_sqlite]; unfold adjIdx; split <;> split <;> split <;> (try split) <;> omega
+
+/-- lower / upper bound of a Python slice -/
+def loOf (n : Int) : Option Int → Int | none => 0 | some i => adjIdx n i
+def hiOf (n : Int) : Option Int → Int | none => n | some i => adjIdx n i
+
+theorem pySlice_eq (xs : List α) (a b : Option Int) :
+    pySlice xs a b = (xs.drop (loOf xs.length a).toNat).take (hiOf xs.length b - loOf xs.length a).toNat := by
+  cases a <;> cases b <;> rfl
+
+theorem pySlice_congr (xs : List α) (a b a' b' : Option Int)
+    (ha : loOf xs.length a' = loOf xs.length a) (hb : hiOf xs.length b' = hiOf xs.length b) : pySlice xs a' b' = pySlice xs a b := by
+  rw [pySlice_eq, pySlice_eq, ha, hb]
+
+theorem index_pg (p : Bool) (v len : Int) : indexConst true p v len = if v ≥ 0 then v + (if p then 1 else 0) else len + v + (if p then 1 else 0) := by
+  cases p <;> simp [indexConst] <;> split <;> omega
+
+
 end PonyVerif.Model.JsonOps
